@@ -6,20 +6,20 @@ def _c17(tier):
     jobs = []
     # block extraction / save: one stratum per log2 m (4..65536), ref and avx drawn inside
     for k in range(2, 17):
-        jobs.append(dict(sub="extract", count=geo(k, 14000, 8, 400) * mult, fix=dict(k=k)))
+        jobs.append(dict(sub="extract", count=geo(k, 20000, 8, 250) * mult, fix=dict(k=k)))
     # cplx <-> reim4 conversion: 5x5 entry points per stratum
     for k in range(2, 17):
-        jobs.append(dict(sub="convert", count=geo(k, 10000, 7, 300) * mult, fix=dict(k=k)))
+        jobs.append(dict(sub="convert", count=geo(k, 15000, 7, 200) * mult, fix=dict(k=k)))
     # dot products: every row count 0..64 exhaustively stratified in four bands + the boundary values
     for lo, hi in ((0, 4), (5, 16), (17, 40), (41, 64)):
-        jobs.append(dict(sub="dot", count=40000 * mult, fix=dict(nrows=(lo, hi))))
+        jobs.append(dict(sub="dot", count=50000 * mult, fix=dict(nrows=(lo, hi))))
     # pointwise kernels: per layout and log2 m
     for layout in (0, 1, 2):
         for k in range(0 if layout != 1 else 2, 17):
-            jobs.append(dict(sub="pointwise", count=geo(k, 14000, 7, 400) * mult, fix=dict(k=k, layout=layout)))
+            jobs.append(dict(sub="pointwise", count=geo(k, 20000, 7, 250) * mult, fix=dict(k=k, layout=layout)))
     # windowed convolution: per entry point
     for fn in (0, 1, 2):
-        jobs.append(dict(sub="convolution", count=30000 * mult, fix=dict(fn=fn)))
+        jobs.append(dict(sub="convolution", count=50000 * mult, fix=dict(fn=fn)))
         jobs.append(dict(sub="convolution", count=12000 * mult, fix=dict(fn=fn, sizea=(0, 2), sizeb=(0, 2), dest_size=(0, 3), offset=(0, 3))))
     return jobs
 
